@@ -53,6 +53,9 @@ JudgeDecode(e) ==
   LET size == TreeSize(e.cells, e.bits) IN
   First(<< <<"alloc", e.capped \/ e.alloc_kb <= AllocBudgetKb(size)>>,
            <<"time",  e.capped \/ e.ms <= TimeBudgetMs(size)>>,
+           \* "a value" means a usable value: the accessors a caller uses next on what was returned (e.use: "" or the
+           \* first panic met while calling them) are part of the call
+           <<"use",   e.res = "ok" => e.use = "">>,
            <<"value", (e.res = "ok" /\ e.val) => ValueOK(e)>>,
            <<"value-differs-from-Dec", (e.res = "ok" /\ e.val) => DecSame(e)>> >>)
 
